@@ -393,6 +393,7 @@ func extMutexLock(fr *frame, args []value) value {
 	ms := fr.m.mutexOf(args[0].(*value))
 	fr.m.blockUntil(fr.th, func() bool { return !ms.locked && ms.readers == 0 })
 	ms.locked = true
+	fr.th.hold(ms, 2)
 	return nil
 }
 
@@ -402,6 +403,7 @@ func extMutexTryLock(fr *frame, args []value) value {
 		return false
 	}
 	ms.locked = true
+	fr.th.hold(ms, 2)
 	return true
 }
 
@@ -411,6 +413,7 @@ func extMutexUnlock(fr *frame, args []value) value {
 		panic(targetPanic{iface{types.Typ[types.String], "fatal error: sync: unlock of unlocked mutex"}})
 	}
 	ms.locked = false
+	fr.th.release(ms)
 	return nil
 }
 
@@ -418,6 +421,7 @@ func extRLock(fr *frame, args []value) value {
 	ms := fr.m.mutexOf(args[0].(*value))
 	fr.m.blockUntil(fr.th, func() bool { return !ms.locked })
 	ms.readers++
+	fr.th.hold(ms, 1)
 	return nil
 }
 
@@ -427,6 +431,7 @@ func extRUnlock(fr *frame, args []value) value {
 		panic(targetPanic{iface{types.Typ[types.String], "fatal error: sync: RUnlock of unlocked RWMutex"}})
 	}
 	ms.readers--
+	fr.th.release(ms)
 	return nil
 }
 
